@@ -310,7 +310,11 @@ def c07_family(V, cfg, mk_uni, start_scanned, tag):
             if case["kind"] != "query":
                 continue
             hist = case["hist"]
-            first = [{"op": "analyze", "path": uni.paths[f], "text": disk_r[f].text, "fresh": True} for f in scan_order] \
+            # a server that has scanned its workspace knows the workspace root (scan_workspace records it before
+            # anything else); code that asks "is this file inside the workspace?" (didClose, third-party detection)
+            # must see it in both twins
+            first = [{"op": "set_root", "path": root + "/R"}] \
+                + [{"op": "analyze", "path": uni.paths[f], "text": disk_r[f].text, "fresh": True} for f in scan_order] \
                 if start_scanned else []
             ops = list(first)
             cur = dict(disk_r)
